@@ -73,6 +73,23 @@ def build_model(cfg=None, **amp_kwargs):
 def phsp_data(config, n, seed=1):
     """n phase-space events (concrete kinematics) as the data dictionary of the model.
     The uniform variates come from numpy (same events under the real and the substitute tensorflow)."""
+    return _phsp(config, n, seed, False)
+
+
+def phsp_p4(config, n, seed=1):
+    """the same events as {final particle name: numpy array (n, 4)} (E, px, py, pz), parent at rest"""
+    return _phsp(config, n, seed, True)
+
+
+def data_of(config, p4):
+    """data dictionary of the model for given four-momenta {name: array (n, 4)}"""
+    import tensorflow as tf
+
+    outs = config.get_dat_order()
+    return config.data.cal_angle({k: tf.convert_to_tensor(np.asarray(p4[str(k)], dtype=np.float64)) for k in outs})
+
+
+def _phsp(config, n, seed, only_p4):
     import tensorflow as tf
     from tf_pwa.phasespace import PhaseSpaceGenerator
 
@@ -96,7 +113,10 @@ def phsp_data(config, n, seed=1):
         gen = PhaseSpaceGenerator(m0, mi)
         mass = gen.generate_mass(n)
         p = gen.generate_momentum(mass, n)
-        data = config.data.cal_angle(dict(zip(outs, p)))
+        if only_p4:
+            data = {str(k): np.asarray(getattr(v, "numpy", lambda: v)() if not hasattr(v, "arr") else v.arr, dtype=np.float64) for k, v in zip(outs, p)}
+        else:
+            data = config.data.cal_angle(dict(zip(outs, p)))
     finally:
         tf.random.uniform = old
         if sym_state is not None:
